@@ -69,7 +69,9 @@ FieldValues(fields) ==
   IF fields = <<>> THEN << <<>> >>
   ELSE LET fv == [i \in 1..Len(fields) |-> Values(fields[i].ty)]
            m == MaxLenOf(fv)
-       IN [r \in 1..m |-> [i \in 1..Len(fields) |-> Cyc(fv[i], r)]]
+       \* shifted diagonal: field i takes its (r + i - 1)-th value, so that empty and non-empty
+       \* values of neighbouring fields get combined
+       IN [r \in 1..m |-> [i \in 1..Len(fields) |-> Cyc(fv[i], r + i - 1)]]
 
 Values(T) ==
   CASE T.k = "prim" -> PrimValues(T.name)
